@@ -193,7 +193,8 @@ MACS = {                # name -> (hash, digest length = key length, encrypt-the
 DEFAULT_ENC = [c for c in CIPHERS if c != b'none']
 DEFAULT_MAC = [m for m in MACS if m != b'none']
 IMPLICIT_MAC = b'<implicit>'            # reported as the MAC of an AEAD cipher
-_RSA_HASH = {b'rsa-sha2-256': hashes.SHA256, b'rsa-sha2-512': hashes.SHA512}      # RFC 8332 3
+_RSA_HASH = {b'rsa-sha2-256': hashes.SHA256, b'rsa-sha2-512': hashes.SHA512,
+             b'ssh-rsa': hashes.SHA1}                                   # RFC 4253 6.6 (legacy, never offered by default)      # RFC 8332 3
 
 
 # ---- host keys: public blob, sign, verify ----------------------------------------------------------
